@@ -626,6 +626,23 @@ func TestVerifSeller(t *testing.T) {
 		tr.Case(c, "seller")
 		run(sellerGen(root.Fork()))
 	}
+	// every kind of bad payload at every point it can arrive: with the purchase, with a destination update of a running
+	// contract (and a good one after it), found on chain at start-up
+	c := n
+	for _, kind := range []string{"empty", "garbage", "nothex", "noturl"} {
+		for _, ops := range [][]string{
+			{"world miners=3 hr=1000 cycle=60", "chain c1 state=0 len=300 hr=1000", "startnode", "purchased c1 len=300 hr=1000 payload=v:poolx", "advance 15",
+				"destupdate c1 payload=" + kind, "advance 15", "destupdate c1 payload=v:pooly", "advance 15", "closed c1", "advance 5"},
+			{"world miners=3 hr=1000 cycle=60", "chain c1 state=0 len=300 hr=1000", "startnode", "purchased c1 len=300 hr=1000 payload=" + kind, "advance 15",
+				"destupdate c1 payload=v:poolx", "advance 15", "destupdate c1 payload=" + kind, "advance 15"},
+			{"world miners=3 hr=1000 cycle=60", "chain c1 state=1 age=30 len=300 hr=1000 payload=" + kind, "startnode", "advance 15",
+				"destupdate c1 payload=v:poolx", "advance 15", "restart", "advance 15"},
+		} {
+			tr.Case(c, "seller")
+			c++
+			run(ops)
+		}
+	}
 }
 
 // ---- C09: delivery tracks the contracted rate ----------------------------------------------------------
